@@ -21,7 +21,8 @@ open Zck Zck.Format
 
 def asciiBytes (s : String) : Bytes := s.toUTF8.toList
 
-def boundary : Bytes := asciiBytes "3d6b6a416f9b5"
+/-- the server picks a new boundary for every multipart response (`n` = number of the transfer, from 1) -/
+def boundary (n : Nat) : Bytes := asciiBytes ("3d6b6a416f9b5" ++ toString n)
 
 /-- inclusive ranges clipped to the file; `none` = 416 -/
 def clip (total : Nat) (rs : List (Nat × Nat)) : Option (List (Nat × Nat)) :=
@@ -31,18 +32,18 @@ def clip (total : Nat) (rs : List (Nat × Nat)) : Option (List (Nat × Nat)) :=
 def sliceIncl (B : Bytes) (r : Nat × Nat) : Bytes := (B.drop r.1).take (r.2 - r.1 + 1)
 
 /-- response header lines and body for the (clipped) ranges -/
-def respond (B : Bytes) (rs : List (Nat × Nat)) : List Bytes × Bytes :=
+def respond (n : Nat) (B : Bytes) (rs : List (Nat × Nat)) : List Bytes × Bytes :=
   match rs with
   | [r] =>
     ([asciiBytes "HTTP/1.1 206 Partial Content\r\n", asciiBytes "Content-Type: application/octet-stream\r\n",
       asciiBytes s!"Content-Range: bytes {r.1}-{r.2}/{B.length}\r\n", asciiBytes "\r\n"], sliceIncl B r)
   | _ =>
     let part (r : Nat × Nat) : Bytes :=
-      asciiBytes "\r\n--" ++ boundary ++ asciiBytes "\r\nContent-Type: application/octet-stream\r\n" ++
+      asciiBytes "\r\n--" ++ boundary n ++ asciiBytes "\r\nContent-Type: application/octet-stream\r\n" ++
       asciiBytes s!"Content-Range: bytes {r.1}-{r.2}/{B.length}\r\n\r\n" ++ sliceIncl B r
-    let body := (rs.map part).flatten ++ asciiBytes "\r\n--" ++ boundary ++ asciiBytes "--\r\n"
+    let body := (rs.map part).flatten ++ asciiBytes "\r\n--" ++ boundary n ++ asciiBytes "--\r\n"
     ([asciiBytes "HTTP/1.1 206 Partial Content\r\n",
-      asciiBytes "Content-Type: multipart/byteranges; boundary=" ++ boundary ++ asciiBytes "\r\n",
+      asciiBytes "Content-Type: multipart/byteranges; boundary=" ++ boundary n ++ asciiBytes "\r\n",
       asciiBytes s!"Content-Length: {body.length}\r\n", asciiBytes "\r\n"], body)
 
 /-- pieces of `n` bytes (`n = 0`: one piece); no empty pieces -/
@@ -96,7 +97,7 @@ def cutBody (cut : Option Nat) (b : Bytes) : Bytes :=
   | none => b
 
 /-- one round of the fetch loop: request, response, callbacks.  `none` = the request could not be made or served -/
-def round (H : HashFn) (rx : Dl.Rx) (B : Bytes) (th : Hdr) (limit : Int) (frag : Nat) (cut : Option Nat) (file : Bytes)
+def round (n : Nat) (H : HashFn) (rx : Dl.Rx) (B : Bytes) (th : Hdr) (limit : Int) (frag : Nat) (cut : Option Nat) (file : Bytes)
     (valid : List Int) : String × Option (Bytes × List Int × Bool) :=
   let rst := reqOf th limit valid
   let rtext := if rst.items.isEmpty then "" else (Range.render rst.items).getD ""
@@ -104,7 +105,7 @@ def round (H : HashFn) (rx : Dl.Rx) (B : Bytes) (th : Hdr) (limit : Int) (frag :
   match clip B.length rst.items with
   | none => (rtext, none)
   | some rs =>
-    let resp := respond B rs
+    let resp := respond n B rs
     let e : Dl.Env := { H := H, rx := rx, hdr := th, ridx := Dl.mkRidx rst.index 0 }
     -- `cut`: the connection drops after that many body bytes (the client retries in the next round)
     let frags := pieces frag (cutBody cut resp.2)
@@ -118,7 +119,7 @@ def loop (H : HashFn) (rx : Dl.Rx) (B : Bytes) (th : Hdr) (limit : Int) (frag : 
   | 0, file, valid, reqs, n => (file, valid, reqs.reverse, n, some "no-progress")
   | fuel + 1, file, valid, reqs, n =>
     if countEq valid 0 = 0 then (file, valid, reqs.reverse, n, none) else
-    match round H rx B th limit frag (match drop with | some (r, c) => if r = n + 1 then some c else none | none => none) file valid with
+    match round (n + 1) H rx B th limit frag (match drop with | some (r, c) => if r = n + 1 then some c else none | none => none) file valid with
     | (r, none) => (file, valid, (r :: reqs).reverse, n + 1, some "download")
     | (r, some (f, v, false)) => (f, v, (r :: reqs).reverse, n + 1, some "download")
     | (r, some (f, v, true)) => loop H rx B th limit frag drop fuel f v (r :: reqs) (n + 1)
